@@ -1,8 +1,9 @@
 /-
   C08 — segmented arrays behave as lists of lists and keep their size invariant.
-  Property theorems only.
+  Property theorems only (each a short call into `OHVerif.Lemmas.Segs`) and witnesses showing
+  that the hypotheses are satisfiable by a non-trivial input (with empty segments).
 -/
-import OHVerif.Model.IC
+import OHVerif.Lemmas.Segs
 
 namespace OH.C08
 open OH OH.IC
@@ -36,5 +37,507 @@ theorem remaining_spec {α : Type} (st : IterState α) (h : st.index + 1 ≤ st.
 
 example : (IC.iterTrace 4 (IC.intoIter [1, 2, 0] [7, 8, 9])) =
     .ok [([7], 2), ([8, 9], 1), ([], 0)] := by decide
+
+/-! ### vocabulary -/
+
+variable {α : Type} {V : Type}
+
+/-- the invariant checked by `validate` -/
+abbrev Valid [HasLen V] (c : IC V) : Prop := c.valid = true
+
+/-- `Valid` spelled out: the size map's codomain is the sum of the sizes plus one and the sizes
+    sum to the length of the value array -/
+theorem valid_iff [HasLen V] (c : IC V) :
+    Valid c ↔
+      c.sources.target = c.sources.table.sum + 1 ∧ c.sources.table.sum = HasLen.len c.values :=
+  IC.valid_iff c
+
+example : Valid (⟨⟨[1, 0, 2], 4⟩, ⟨[5, 6, 7], 9⟩⟩ : IC FinFun) ∧
+    ¬ Valid (⟨⟨[1, 0, 2], 5⟩, ⟨[5, 6, 7], 9⟩⟩ : IC FinFun) ∧
+    ¬ Valid (⟨⟨[1, 0, 2], 4⟩, [5, 6]⟩ : IC (List Nat)) := by decide
+
+/-! ### the list-of-lists view and its round trips -/
+
+theorem segs_ofSegs (l : List (List Nat)) (t : Nat) :
+    (IC.ofSegs l t).segs = l ∧ Valid (IC.ofSegs l t) ∧ (IC.ofSegs l t).values.target = t :=
+  ⟨IC.segs_ofSegs l t, IC.ofSegs_valid l t, rfl⟩
+
+theorem segsL_ofSegsL (l : List (List α)) :
+    (IC.ofSegsL l).segsL = l ∧ Valid (IC.ofSegsL l) :=
+  ⟨IC.segsL_ofSegsL l, IC.ofSegsL_valid l⟩
+
+theorem ofSegs_segs (c : IC FinFun) (h : Valid c) : IC.ofSegs c.segs c.values.target = c :=
+  IC.ofSegs_segs c h
+
+theorem ofSegsL_segsL (c : IC (List α)) (h : Valid c) : IC.ofSegsL c.segsL = c :=
+  IC.ofSegsL_segsL c h
+
+example : Valid (⟨⟨[1, 0, 2], 4⟩, ⟨[5, 6, 7], 9⟩⟩ : IC FinFun) ∧
+    (⟨⟨[1, 0, 2], 4⟩, ⟨[5, 6, 7], 9⟩⟩ : IC FinFun).segs = [[5], [], [6, 7]] ∧
+    IC.ofSegs [[5], [], [6, 7]] 9 = ⟨⟨[1, 0, 2], 4⟩, ⟨[5, 6, 7], 9⟩⟩ ∧
+    IC.ofSegsL [["a"], [], ["b", "c"]] = ⟨⟨[1, 0, 2], 4⟩, ["a", "b", "c"]⟩ := by decide
+
+/-- without the invariant the round trip fails: surplus values are lost -/
+example : IC.ofSegsL (⟨⟨[1], 2⟩, [7, 8]⟩ : IC (List Nat)).segsL ≠ ⟨⟨[1], 2⟩, [7, 8]⟩ := by decide
+
+theorem segs_length (c : IC FinFun) : c.segs.length = c.len := IC.segs_length c
+
+theorem segsL_length (c : IC (List α)) : c.segsL.length = c.len := IC.segsL_length c
+
+/-- the segments are consecutive slices covering the whole value array, of the given sizes -/
+theorem segs_flatten (c : IC FinFun) (h : Valid c) :
+    c.segs.flatten = c.values.table ∧ c.segs.map List.length = c.sources.table :=
+  ⟨IC.segs_flatten c h, IC.segs_map_length c h⟩
+
+theorem segsL_flatten (c : IC (List α)) (h : Valid c) :
+    c.segsL.flatten = c.values ∧ c.segsL.map List.length = c.sources.table :=
+  ⟨IC.segsL_flatten c h, IC.segsL_map_length c h⟩
+
+example : Valid (⟨⟨[0, 2, 0, 1], 4⟩, ["a", "b", "c"]⟩ : IC (List String)) ∧
+    (⟨⟨[0, 2, 0, 1], 4⟩, ["a", "b", "c"]⟩ : IC (List String)).segsL = [[], ["a", "b"], [], ["c"]] := by
+  decide
+
+/-! ### checked construction from a plain size array -/
+
+/-- `from_semifinite` succeeds exactly when the sizes sum to the value length (then the size map
+    is `sizes` with codomain that sum plus one), is `none` otherwise, and never panics -/
+theorem fromSemifinite_spec [HasLen V] (sizes : List Nat) (v : V) :
+    (∀ c, IC.fromSemifinite sizes v = .ok c ↔
+      sizes.sum = HasLen.len v ∧ c = ⟨⟨sizes, HasLen.len v + 1⟩, v⟩) ∧
+    (IC.fromSemifinite sizes v = .none ↔ sizes.sum ≠ HasLen.len v) ∧
+    (∀ s, IC.fromSemifinite sizes v ≠ .panic s) ∧
+    (∀ c, IC.fromSemifinite sizes v = .ok c → c.sources.table = sizes ∧ c.values = v ∧ Valid c) := by
+  rw [IC.fromSemifinite_eq]
+  by_cases h : sizes.sum = HasLen.len v
+  · simp only [h, if_true, Res.ok.injEq, true_and, ne_eq, not_true_eq_false, iff_false]
+    refine ⟨fun c => eq_comm, by simp, by simp, ?_⟩
+    intro c hc
+    subst hc
+    exact ⟨rfl, rfl, IC.mk_valid _ _ (by simp [h]) h⟩
+  · simp [h]
+
+example : IC.fromSemifinite (V := List Nat) [1, 0, 2] [7, 8, 9] = .ok ⟨⟨[1, 0, 2], 4⟩, [7, 8, 9]⟩ ∧
+    IC.fromSemifinite (V := List Nat) [1, 0, 1] [7, 8, 9] = .none ∧
+    IC.fromSemifinite (V := List Nat) [1, 0, 4] [7, 8, 9] = .none ∧
+    IC.fromSemifinite (V := FinFun) [2, 0] ⟨[1, 1], 2⟩ = .ok ⟨⟨[2, 0], 3⟩, ⟨[1, 1], 2⟩⟩ := by decide
+
+/-! ### singleton, elements, initial -/
+
+theorem singleton_segs (v : FinFun) :
+    (IC.singleton v).segs = [v.table] ∧ Valid (IC.singleton v) ∧ (IC.singleton v).values = v :=
+  ⟨IC.singleton_segs v, IC.singleton_valid v, rfl⟩
+
+theorem singleton_segsL (v : List α) :
+    (IC.singleton v).segsL = [v] ∧ Valid (IC.singleton v) :=
+  ⟨IC.singleton_segsL v, IC.singleton_valid v⟩
+
+example : (IC.singleton (⟨[2, 0, 2], 3⟩ : FinFun)).segs = [[2, 0, 2]] ∧
+    (IC.singleton ([] : List Nat)).segsL = [[]] := by decide
+
+/-- `elements`: one singleton segment per value -/
+theorem elements_spec (v : FinFun) :
+    ∃ c, IC.elements v = .ok c ∧ c.segs = v.table.map ([·]) ∧ Valid c ∧ c.values = v := by
+  refine ⟨_, IC.elements_eq v, ?_, ?_, rfl⟩
+  · exact splitSegs_replicate_one v.table
+  · exact IC.mk_valid _ _ (by simp) (by simp)
+
+theorem elements_specL (v : List α) :
+    ∃ c, IC.elements v = .ok c ∧ c.segsL = v.map ([·]) ∧ Valid c ∧ c.values = v := by
+  refine ⟨_, IC.elements_eq v, ?_, ?_, rfl⟩
+  · exact splitSegs_replicate_one v
+  · exact IC.mk_valid _ _ (by simp) (by simp)
+
+example : IC.elements (⟨[2, 0, 2], 3⟩ : FinFun) = .ok ⟨⟨[1, 1, 1], 4⟩, ⟨[2, 0, 2], 3⟩⟩ ∧
+    (⟨⟨[1, 1, 1], 4⟩, ⟨[2, 0, 2], 3⟩⟩ : IC FinFun).segs = [[2], [0], [2]] ∧
+    IC.elements ([] : List Nat) = .ok ⟨⟨[], 1⟩, []⟩ := by decide
+
+theorem initial_segs (t : Nat) :
+    (IC.initial t).segs = [] ∧ Valid (IC.initial t) ∧ (IC.initial t).values.target = t :=
+  ⟨rfl, rfl, rfl⟩
+
+/-! ### coproduct and tensor -/
+
+/-- coproduct = concatenation of the lists of lists -/
+theorem coproduct_spec (c d : IC FinFun) (hc : Valid c) (hd : Valid d)
+    (ht : c.values.target = d.values.target) :
+    ∃ e, IC.coproduct c d = .ok e ∧ Valid e ∧ e.segs = c.segs ++ d.segs ∧
+      e.values.target = c.values.target := by
+  have hc2 := ((IC.valid_iff c).1 hc).2
+  refine ⟨_, IC.coproduct_eq c d hc hd ht, ?_, ?_, rfl⟩
+  · have hd2 := ((IC.valid_iff d).1 hd).2
+    exact IC.mk_valid _ _ rfl (by simp_all)
+  · exact splitSegs_append _ _ _ _ hc2
+
+example :
+    let c : IC FinFun := ⟨⟨[1, 0, 2], 4⟩, ⟨[5, 6, 7], 9⟩⟩
+    let d : IC FinFun := ⟨⟨[0, 2], 3⟩, ⟨[8, 0], 9⟩⟩
+    Valid c ∧ Valid d ∧ c.values.target = d.values.target ∧
+    IC.coproduct c d = .ok ⟨⟨[1, 0, 2, 0, 2], 6⟩, ⟨[5, 6, 7, 8, 0], 9⟩⟩ ∧
+    (⟨⟨[1, 0, 2, 0, 2], 6⟩, ⟨[5, 6, 7, 8, 0], 9⟩⟩ : IC FinFun).segs = [[5], [], [6, 7], [], [8, 0]] := by
+  decide
+
+/-- different value codomains: `none` (for operands whose size codomains are not both zero, in
+    particular for valid ones); the only other failure is the underflow panic -/
+theorem coproduct_none (c d : IC FinFun) (h1 : 1 ≤ c.sources.target + d.sources.target)
+    (ht : c.values.target ≠ d.values.target) : IC.coproduct c d = .none :=
+  IC.coproduct_none c d h1 ht
+
+theorem coproduct_none_of_valid (c d : IC FinFun) (hc : Valid c)
+    (ht : c.values.target ≠ d.values.target) : IC.coproduct c d = .none :=
+  IC.coproduct_none c d (by have := ((IC.valid_iff c).1 hc).1; omega) ht
+
+example : IC.coproduct (⟨⟨[1], 2⟩, ⟨[5], 9⟩⟩ : IC FinFun) ⟨⟨[1], 2⟩, ⟨[5], 8⟩⟩ = .none ∧
+    IC.coproduct (⟨⟨[], 0⟩, ⟨[], 9⟩⟩ : IC FinFun) ⟨⟨[], 0⟩, ⟨[], 8⟩⟩ =
+      .panic "ic.coproduct:underflow" := by decide
+
+theorem coproduct_specL (c d : IC (List α)) (hc : Valid c) (hd : Valid d) :
+    ∃ e, IC.coproduct c d = .ok e ∧ Valid e ∧ e.segsL = c.segsL ++ d.segsL := by
+  have hc2 := ((IC.valid_iff c).1 hc).2
+  refine ⟨_, IC.coproductL_eq c d hc hd, ?_, ?_⟩
+  · have hd2 := ((IC.valid_iff d).1 hd).2
+    exact IC.mk_valid _ _ rfl (by simp_all)
+  · exact splitSegs_append _ _ _ _ hc2
+
+example :
+    let c : IC (List String) := ⟨⟨[0, 2], 3⟩, ["a", "b"]⟩
+    let d : IC (List String) := ⟨⟨[1, 0], 2⟩, ["c"]⟩
+    Valid c ∧ Valid d ∧ IC.coproduct c d = .ok ⟨⟨[0, 2, 1, 0], 4⟩, ["a", "b", "c"]⟩ ∧
+    (⟨⟨[0, 2, 1, 0], 4⟩, ["a", "b", "c"]⟩ : IC (List String)).segsL = [[], ["a", "b"], ["c"], []] := by
+  decide
+
+/-- tensor = concatenation, the values of the second operand shifted past the first codomain -/
+theorem tensor_spec (c d : IC FinFun) (hc : Valid c) (hd : Valid d) :
+    ∃ e, IC.tensor c d = .ok e ∧ Valid e ∧
+      e.segs = c.segs ++ d.segs.map (·.map (c.values.target + ·)) ∧
+      e.values.target = c.values.target + d.values.target := by
+  have hc2 := ((IC.valid_iff c).1 hc).2
+  refine ⟨_, IC.tensor_eq c d hc hd, ?_, ?_, rfl⟩
+  · have hd2 := ((IC.valid_iff d).1 hd).2
+    exact IC.mk_valid _ _ rfl (by simp_all)
+  · show splitSegs _ _ = _
+    rw [splitSegs_append _ _ _ _ hc2, splitSegs_map]
+    rfl
+
+example :
+    let c : IC FinFun := ⟨⟨[1, 0, 2], 4⟩, ⟨[1, 0, 1], 2⟩⟩
+    let d : IC FinFun := ⟨⟨[0, 2], 3⟩, ⟨[2, 0], 3⟩⟩
+    Valid c ∧ Valid d ∧
+    IC.tensor c d = .ok ⟨⟨[1, 0, 2, 0, 2], 6⟩, ⟨[1, 0, 1, 4, 2], 5⟩⟩ ∧
+    (⟨⟨[1, 0, 2, 0, 2], 6⟩, ⟨[1, 0, 1, 4, 2], 5⟩⟩ : IC FinFun).segs = [[1], [], [0, 1], [], [4, 2]] := by
+  decide
+
+/-! ### mapping the values -/
+
+/-- `map_values`: every entry of every segment is sent through `x`; sizes unchanged.
+    (`x.table.getD i 0` is the `i`-th entry of `x`: all `i` are in range, see the last conjunct,
+    which states the same with `x.table[i]?`.) -/
+theorem mapValues_spec (c : IC FinFun) (x : FinFun) (hc : Valid c) (hw : c.values.WF)
+    (h : c.values.target = x.source) (hx : x.WF) :
+    ∃ e, IC.mapValues c x = .ok e ∧ Valid e ∧ e.sources = c.sources ∧
+      e.values.target = x.target ∧ e.values.WF ∧
+      e.segs = c.segs.map (·.map (fun i => x.table.getD i 0)) ∧
+      e.segs.map (·.map some) = c.segs.map (·.map (fun i => x.table[i]?)) := by
+  have hc' := (IC.valid_iff c).1 hc
+  have hlt : ∀ i ∈ c.values.table, i < x.table.length := fun i hi => by
+    have := hw i hi; rw [h] at this; exact this
+  refine ⟨_, IC.mapValues_eq c x hw h, ?_, rfl, rfl, ?_, ?_, ?_⟩
+  · exact IC.mk_valid _ _ hc'.1 (by simpa using hc'.2)
+  · intro y hy
+    obtain ⟨i, hi, rfl⟩ := List.mem_map.1 hy
+    apply hx
+    simp [List.getD_eq_getElem?_getD, List.getElem?_eq_getElem (hlt i hi)]
+  · exact splitSegs_map _ _ _
+  · apply IC.splitSegs_map_some
+    intro i hi
+    simp [List.getD_eq_getElem?_getD, List.getElem?_eq_getElem (hlt i hi)]
+
+example :
+    let c : IC FinFun := ⟨⟨[1, 0, 2], 4⟩, ⟨[1, 0, 1], 2⟩⟩
+    let x : FinFun := ⟨[7, 5], 9⟩
+    Valid c ∧ c.values.WF ∧ c.values.target = x.source ∧ x.WF ∧
+    IC.mapValues c x = .ok ⟨⟨[1, 0, 2], 4⟩, ⟨[5, 7, 5], 9⟩⟩ ∧
+    (⟨⟨[1, 0, 2], 4⟩, ⟨[5, 7, 5], 9⟩⟩ : IC FinFun).segs = [[5], [], [7, 5]] := by decide
+
+/-- `map_values` is `none` exactly when the codomain of the values is not the domain of `x` -/
+theorem mapValues_none_iff (c : IC FinFun) (x : FinFun) :
+    IC.mapValues c x = .none ↔ c.values.target ≠ x.source :=
+  IC.mapValues_none_iff c x
+
+example : IC.mapValues (⟨⟨[1], 2⟩, ⟨[0], 2⟩⟩ : IC FinFun) ⟨[7, 5, 6], 9⟩ = .none := by decide
+
+/-- `map_semifinite`: every entry of every segment is replaced by its label -/
+theorem mapSemifinite_spec (c : IC FinFun) (labels : List α) (hc : Valid c) (hw : c.values.WF)
+    (h : c.values.target = labels.length) :
+    ∃ e, IC.mapSemifinite c labels = .ok e ∧ Valid e ∧ e.sources = c.sources ∧
+      e.segsL.map (·.map some) = c.segs.map (·.map (fun i => labels[i]?)) ∧
+      ∀ φ : Nat → α, (∀ i, i < labels.length → labels[i]? = some (φ i)) →
+        e.segsL = c.segs.map (·.map φ) := by
+  have hc' := (IC.valid_iff c).1 hc
+  have hlt : ∀ i ∈ c.values.table, i < labels.length := fun i hi => by
+    have := hw i hi; rw [h] at this; exact this
+  refine ⟨_, IC.mapSemifinite_eq c labels hw h, ?_, rfl, ?_, ?_⟩
+  · refine IC.mk_valid _ _ hc'.1 ?_
+    rw [hc'.2]
+    exact (Prim.gatherP_length labels c.values.table hlt).symm
+  · show (splitSegs _ _).map _ = _
+    rw [← splitSegs_map, Prim.gatherP_eq_map labels c.values.table hlt, splitSegs_map]
+    rfl
+  · intro φ hφ
+    show splitSegs _ _ = _
+    rw [FinFun.gatherP_eq_map labels c.values.table φ (fun i hi => hφ i (hlt i hi)),
+      splitSegs_map]
+    rfl
+
+example :
+    let c : IC FinFun := ⟨⟨[1, 0, 2], 4⟩, ⟨[1, 0, 1], 2⟩⟩
+    let labels : List String := ["a", "b"]
+    Valid c ∧ c.values.WF ∧ c.values.target = labels.length ∧
+    IC.mapSemifinite c labels = .ok ⟨⟨[1, 0, 2], 4⟩, ["b", "a", "b"]⟩ ∧
+    (⟨⟨[1, 0, 2], 4⟩, ["b", "a", "b"]⟩ : IC (List String)).segsL = [["b"], [], ["a", "b"]] := by
+  decide
+
+theorem mapSemifinite_none_iff (c : IC FinFun) (labels : List α) :
+    IC.mapSemifinite c labels = .none ↔ c.values.target ≠ labels.length :=
+  IC.mapSemifinite_none_iff c labels
+
+/-! ### re-indexing along a map -/
+
+/-- `map_indexes`: the `k`-th segment of the result is segment `x(k)` of `c`
+    (`x` need not be injective and may be empty); `indexed_values` is its flat value array -/
+theorem mapIndexes_spec (c : IC FinFun) (x : FinFun) (hc : Valid c) (hx : x.WF)
+    (h : x.target = c.len) :
+    ∃ e, IC.mapIndexes c x = .ok e ∧ Valid e ∧ e.values.target = c.values.target ∧
+      e.segs = x.table.map (fun j => c.segs.getD j []) ∧
+      e.segs.map some = x.table.map (fun j => c.segs[j]?) ∧
+      IC.indexedValues c x = .ok e.values := by
+  have hc2 := ((IC.valid_iff c).1 hc).2
+  have hsegs : (⟨⟨x.table.map (fun j => c.sources.table.getD j 0),
+        (x.table.flatMap (fun j => c.segs.getD j [])).length + 1⟩,
+      ⟨x.table.flatMap (fun j => c.segs.getD j []), c.values.target⟩⟩ : IC FinFun).segs =
+      x.table.map (fun j => c.segs.getD j []) := by
+    apply IC.segs_eq_of
+    · simp only [List.map_map]
+      apply List.map_congr_left
+      intro j _
+      exact (splitSegs_getD_length _ _ (Nat.le_of_eq hc2) j).symm
+    · simp only [List.flatMap_def]
+  refine ⟨_, IC.mapIndexes_eq c x hc hx h, ?_, rfl, hsegs, ?_, IC.indexedValues_eq c x hc hx h⟩
+  · have hs := IC.sum_map_getD_sizes c.sources.table c.values.table x.table (Nat.le_of_eq hc2)
+    exact IC.mk_valid _ _ (congrArg (· + 1) hs.symm) hs
+  · rw [hsegs]
+    apply IC.map_getD_some
+    intro j hj
+    rw [IC.segs_length, ← h]
+    exact hx j hj
+
+example :
+    let c : IC FinFun := ⟨⟨[1, 0, 2], 4⟩, ⟨[5, 6, 7], 9⟩⟩
+    let x : FinFun := ⟨[2, 1, 2, 0, 2], 3⟩
+    Valid c ∧ x.WF ∧ x.target = c.len ∧
+    IC.mapIndexes c x = .ok ⟨⟨[2, 0, 2, 1, 2], 8⟩, ⟨[6, 7, 6, 7, 5, 6, 7], 9⟩⟩ ∧
+    (⟨⟨[2, 0, 2, 1, 2], 8⟩, ⟨[6, 7, 6, 7, 5, 6, 7], 9⟩⟩ : IC FinFun).segs =
+      [[6, 7], [], [6, 7], [5], [6, 7]] ∧
+    IC.indexedValues c x = .ok ⟨[6, 7, 6, 7, 5, 6, 7], 9⟩ ∧
+    IC.mapIndexes c ⟨[], 3⟩ = .ok ⟨⟨[], 1⟩, ⟨[], 9⟩⟩ := by decide
+
+theorem mapIndexes_specL (c : IC (List α)) (x : FinFun) (hc : Valid c) (hx : x.WF)
+    (h : x.target = c.len) :
+    ∃ e, IC.mapIndexes c x = .ok e ∧ Valid e ∧
+      e.segsL = x.table.map (fun j => c.segsL.getD j []) ∧
+      e.segsL.map some = x.table.map (fun j => c.segsL[j]?) ∧
+      IC.indexedValues c x = .ok e.values := by
+  have hc2 := ((IC.valid_iff c).1 hc).2
+  have hsegs : (⟨⟨x.table.map (fun j => c.sources.table.getD j 0),
+        (x.table.flatMap (fun j => c.segsL.getD j [])).length + 1⟩,
+      x.table.flatMap (fun j => c.segsL.getD j [])⟩ : IC (List α)).segsL =
+      x.table.map (fun j => c.segsL.getD j []) := by
+    apply IC.segsL_eq_of
+    · simp only [List.map_map]
+      apply List.map_congr_left
+      intro j _
+      exact (splitSegs_getD_length _ _ (Nat.le_of_eq hc2) j).symm
+    · simp only [List.flatMap_def]
+  refine ⟨_, IC.mapIndexesL_eq c x hc hx h, ?_, hsegs, ?_, IC.indexedValuesL_eq c x hc hx h⟩
+  · have hs := IC.sum_map_getD_sizes c.sources.table c.values x.table (Nat.le_of_eq hc2)
+    exact IC.mk_valid _ _ (congrArg (· + 1) hs.symm) hs
+  · rw [hsegs]
+    apply IC.map_getD_some
+    intro j hj
+    rw [IC.segsL_length, ← h]
+    exact hx j hj
+
+example :
+    let c : IC (List String) := ⟨⟨[1, 0, 2], 4⟩, ["a", "b", "c"]⟩
+    let x : FinFun := ⟨[2, 1, 2, 0], 3⟩
+    Valid c ∧ x.WF ∧ x.target = c.len ∧
+    IC.mapIndexes c x = .ok ⟨⟨[2, 0, 2, 1], 6⟩, ["b", "c", "b", "c", "a"]⟩ ∧
+    (⟨⟨[2, 0, 2, 1], 6⟩, ["b", "c", "b", "c", "a"]⟩ : IC (List String)).segsL =
+      [["b", "c"], [], ["b", "c"], ["a"]] := by decide
+
+/-- `map_indexes` is `none` when the codomain of `x` is not the number of segments -/
+theorem mapIndexes_none [IC.Vals V] (c : IC V) (x : FinFun) (h : x.target ≠ c.len) :
+    IC.mapIndexes c x = .none :=
+  IC.mapIndexes_none c x h
+
+example : IC.mapIndexes (⟨⟨[1, 0, 2], 4⟩, ⟨[5, 6, 7], 9⟩⟩ : IC FinFun) ⟨[0], 2⟩ = .none := by decide
+
+/-- `indexed_values`: the chosen segments, concatenated -/
+theorem indexedValues_spec (c : IC FinFun) (x : FinFun) (hc : Valid c) (hx : x.WF)
+    (h : x.target = c.len) :
+    IC.indexedValues c x =
+      .ok ⟨(x.table.map (fun j => c.segs.getD j [])).flatten, c.values.target⟩ := by
+  rw [IC.indexedValues_eq c x hc hx h, List.flatMap_def]
+
+theorem indexedValues_specL (c : IC (List α)) (x : FinFun) (hc : Valid c) (hx : x.WF)
+    (h : x.target = c.len) :
+    IC.indexedValues c x = .ok (x.table.map (fun j => c.segsL.getD j [])).flatten := by
+  rw [IC.indexedValuesL_eq c x hc hx h, List.flatMap_def]
+
+example :
+    let c : IC (List String) := ⟨⟨[1, 0, 2], 4⟩, ["a", "b", "c"]⟩
+    let x : FinFun := ⟨[2, 1, 2, 0], 3⟩
+    Valid c ∧ x.WF ∧ x.target = c.len ∧
+    IC.indexedValues c x = .ok ["b", "c", "b", "c", "a"] := by decide
+
+/-! ### flatmap -/
+
+/-- `flatmap` is list bind: every entry `j` of every segment of `c` is replaced by segment `j`
+    of `d` -/
+theorem flatmap_spec (c d : IC FinFun) (hc : Valid c) (hw : c.values.WF) (hd : Valid d)
+    (h : c.values.target = d.len) :
+    ∃ e, IC.flatmap c d = .ok e ∧ Valid e ∧ e.values.target = d.values.target ∧
+      e.segs = c.segs.map (fun seg => seg.flatMap (fun j => d.segs.getD j [])) := by
+  refine ⟨_, IC.flatmap_eq c d hc hw hd h, ?_, rfl, IC.flatmap_segs_aux c d hc hd⟩
+  have hs := IC.flatmap_sizes_sum c d hc hd
+  exact IC.mk_valid _ _ (congrArg (· + 1) hs.symm) hs
+
+example :
+    let c : IC FinFun := ⟨⟨[2, 0, 1], 4⟩, ⟨[1, 2, 1], 3⟩⟩
+    let d : IC FinFun := ⟨⟨[1, 2, 0], 4⟩, ⟨[5, 6, 7], 9⟩⟩
+    Valid c ∧ c.values.WF ∧ Valid d ∧ c.values.target = d.len ∧
+    c.segs = [[1, 2], [], [1]] ∧ d.segs = [[5], [6, 7], []] ∧
+    IC.flatmap c d = .ok ⟨⟨[2, 0, 2], 5⟩, ⟨[6, 7, 6, 7], 9⟩⟩ ∧
+    (⟨⟨[2, 0, 2], 5⟩, ⟨[6, 7, 6, 7], 9⟩⟩ : IC FinFun).segs = [[6, 7], [], [6, 7]] := by decide
+
+/-- under the other hypotheses `flatmap` panics exactly when the value codomain of `c` is not the
+    number of segments of `d` (that direction needs no hypotheses) -/
+theorem flatmap_panics_iff (c d : IC FinFun) (hc : Valid c) (hw : c.values.WF) (hd : Valid d) :
+    (∃ s, IC.flatmap c d = .panic s) ↔ c.values.target ≠ d.len := by
+  constructor
+  · rintro ⟨s, hs⟩ h
+    obtain ⟨e, he, _⟩ := flatmap_spec c d hc hw hd h
+    rw [he] at hs
+    cases hs
+  · intro h
+    exact ⟨_, IC.flatmap_panic c d h⟩
+
+theorem flatmap_panics (c d : IC FinFun) (h : c.values.target ≠ d.len) :
+    IC.flatmap c d = .panic "flatmap:assert" :=
+  IC.flatmap_panic c d h
+
+example : IC.flatmap (⟨⟨[1], 2⟩, ⟨[0], 2⟩⟩ : IC FinFun) ⟨⟨[1], 2⟩, ⟨[0], 1⟩⟩ =
+    .panic "flatmap:assert" := by decide
+
+/-! ### flatmap of sources -/
+
+/-- `flatmap_sources`: the segments of `d` concatenated in groups whose sizes are the sizes of
+    `c`; the values are those of `d` -/
+theorem flatmapSources_spec [HasLen V] (c : IC V) (d : IC FinFun) (hc : Valid c) (hd : Valid d)
+    (h : HasLen.len c.values = d.len) :
+    ∃ e, IC.flatmapSources c d = .ok e ∧ e.values = d.values ∧ Valid e ∧ e.len = c.len ∧
+      e.segs = (splitSegs c.sources.table d.segs).map List.flatten := by
+  have hc2 := ((IC.valid_iff c).1 hc).2
+  have hd' := (IC.valid_iff d).1 hd
+  have hsum := IC.sum_regroup c.sources.table d.sources.table (by rw [hc2, h]; exact Nat.le_refl _)
+  refine ⟨_, IC.flatmapSources_eq c d hc h, rfl, ?_, ?_, ?_⟩
+  · exact IC.mk_valid _ _ (by simp only [hsum]; exact hd'.1) (by simp only [hsum]; exact hd'.2)
+  · simp [IC.len, FinFun.source]
+  · exact splitSegs_splitSegs _ _ _
+
+example :
+    let c : IC (List Nat) := ⟨⟨[2, 0, 1], 4⟩, [0, 0, 0]⟩
+    let d : IC FinFun := ⟨⟨[1, 0, 2], 4⟩, ⟨[5, 6, 7], 9⟩⟩
+    Valid c ∧ Valid d ∧ HasLen.len c.values = d.len ∧
+    IC.flatmapSources c d = .ok ⟨⟨[1, 0, 2], 4⟩, ⟨[5, 6, 7], 9⟩⟩ ∧
+    splitSegs c.sources.table d.segs = [[[5], []], [], [[6, 7]]] ∧
+    (⟨⟨[1, 0, 2], 4⟩, ⟨[5, 6, 7], 9⟩⟩ : IC FinFun).segs = [[5], [], [6, 7]] := by decide
+
+theorem flatmapSources_specL [HasLen V] (c : IC V) (d : IC (List α)) (hc : Valid c) (hd : Valid d)
+    (h : HasLen.len c.values = d.len) :
+    ∃ e, IC.flatmapSources c d = .ok e ∧ e.values = d.values ∧ Valid e ∧ e.len = c.len ∧
+      e.segsL = (splitSegs c.sources.table d.segsL).map List.flatten := by
+  have hc2 := ((IC.valid_iff c).1 hc).2
+  have hd' := (IC.valid_iff d).1 hd
+  have hsum := IC.sum_regroup c.sources.table d.sources.table (by rw [hc2, h]; exact Nat.le_refl _)
+  refine ⟨_, IC.flatmapSources_eq c d hc h, rfl, ?_, ?_, ?_⟩
+  · exact IC.mk_valid _ _ (by simp only [hsum]; exact hd'.1) (by simp only [hsum]; exact hd'.2)
+  · simp [IC.len, FinFun.source]
+  · exact splitSegs_splitSegs _ _ _
+
+example :
+    let c : IC FinFun := ⟨⟨[0, 3, 1], 5⟩, ⟨[0, 0, 0, 0], 1⟩⟩
+    let d : IC (List String) := ⟨⟨[1, 0, 2, 1], 5⟩, ["a", "b", "c", "d"]⟩
+    Valid c ∧ Valid d ∧ HasLen.len c.values = d.len ∧
+    IC.flatmapSources c d = .ok ⟨⟨[0, 3, 1], 5⟩, ["a", "b", "c", "d"]⟩ ∧
+    (⟨⟨[0, 3, 1], 5⟩, ["a", "b", "c", "d"]⟩ : IC (List String)).segsL =
+      [[], ["a", "b", "c"], ["d"]] := by decide
+
+theorem flatmapSources_panics {W : Type} [HasLen V] (c : IC V) (d : IC W)
+    (h : HasLen.len c.values ≠ d.len) :
+    IC.flatmapSources c d = .panic "flatmap_sources:assert" :=
+  IC.flatmapSources_panic c d h
+
+/-! ### iterators -/
+
+/-- the owning iterator yields every slice once, in order, then `None`; after the `k`-th item it
+    reports exactly `n - (k+1)` items still to come -/
+theorem iterTrace_spec (sizes : List Nat) (values : List α) (h : sizes.sum = values.length)
+    (fuel : Nat) (hf : sizes.length + 1 ≤ fuel) :
+    ∃ tr, IC.iterTrace fuel (IC.intoIter sizes values) = .ok tr ∧
+      tr.length = sizes.length ∧
+      tr.map (·.1) = splitSegs sizes values ∧
+      tr.map (·.2) = (List.range sizes.length).map (fun k => sizes.length - (k + 1)) ∧
+      (tr.map (·.1)).flatten = values := by
+  refine ⟨_, IC.iterTrace_eq sizes values (Nat.le_of_eq h) fuel hf, by simp, ?_, ?_, ?_⟩
+  · have := IC.range_map_getD (splitSegs sizes values)
+    rw [splitSegs_length] at this
+    simpa [List.map_map, Function.comp_def] using this
+  · simp [List.map_map, Function.comp_def]
+  · have := IC.range_map_getD (splitSegs sizes values)
+    rw [splitSegs_length] at this
+    simp only [List.map_map, Function.comp_def, this]
+    exact splitSegs_flatten _ _ (Nat.le_of_eq h.symm)
+
+example : [1, 2, 0].sum = [7, 8, 9].length ∧
+    IC.iterTrace 4 (IC.intoIter [1, 2, 0] [7, 8, 9]) = .ok [([7], 2), ([8, 9], 1), ([], 0)] ∧
+    IC.iterTrace 9 (IC.intoIter [0, 3, 0, 1] ["a", "b", "c", "d"]) =
+      .ok [([], 3), (["a", "b", "c"], 2), ([], 1), (["d"], 0)] := by decide
+
+/-- the borrowed slice iterator yields the segments -/
+theorem sliceIter_spec (c : IC (List α)) (h : Valid c) : IC.sliceIter c = .ok c.segsL :=
+  IC.sliceIter_eq c (Nat.le_of_eq ((IC.valid_iff c).1 h).2)
+
+example : Valid (⟨⟨[0, 2, 0, 1], 4⟩, ["a", "b", "c"]⟩ : IC (List String)) ∧
+    IC.sliceIter (⟨⟨[0, 2, 0, 1], 4⟩, ["a", "b", "c"]⟩ : IC (List String)) =
+      .ok [[], ["a", "b"], [], ["c"]] := by decide
+
+/-- the per-operation view of an operation batch: (label, source type, target type) in order -/
+theorem operations_iter_spec {O A : Type} (ops : Operations O A) (ha : Valid ops.a)
+    (hb : Valid ops.b) (hla : ops.x.length = ops.a.len) (hlb : ops.x.length = ops.b.len) :
+    ops.iter = .ok (List.zip ops.x (List.zip ops.a.segsL ops.b.segsL)) ∧
+    (List.zip ops.x (List.zip ops.a.segsL ops.b.segsL)).length = ops.x.length ∧
+    ops.validate = .ok ops := by
+  refine ⟨?_, ?_, ?_⟩
+  · unfold Operations.iter
+    rw [sliceIter_spec ops.a ha, sliceIter_spec ops.b hb]
+    rfl
+  · simp [IC.segsL_length, ← hla, ← hlb]
+  · simp [Operations.validate, hla, ← hlb]
+
+example :
+    let ops : Operations String String :=
+      ⟨["f", "g", "h"], ⟨⟨[2, 0, 1], 4⟩, ["A", "B", "C"]⟩, ⟨⟨[0, 1, 1], 3⟩, ["D", "E"]⟩⟩
+    Valid ops.a ∧ Valid ops.b ∧ ops.x.length = ops.a.len ∧ ops.x.length = ops.b.len ∧
+    ops.iter = .ok [("f", ["A", "B"], []), ("g", [], ["D"]), ("h", ["C"], ["E"])] := by decide
 
 end OH.C08
